@@ -458,6 +458,7 @@ func (s *wireSock) eligible() bool {
 // ---------------------------------------------------------------- runner
 
 type wireRunner struct {
+	apiMsgs map[string]*gmqtt.Message // api_publish: message objects by content
 	srv interface {
 		server.Server
 		server.VerifServer
@@ -819,7 +820,18 @@ func (rn *wireRunner) step(st *Sx) (extra []*Sx) {
 			_ = s.conn.Close()
 		}
 	case "api_publish":
-		rn.srv.Publisher().Publish(msgOfSx(st.List[1]))
+		// a caller of Publisher.Publish may publish one message object again and again (a periodic status message):
+		// the same content in one scenario is the same object, which the broker must not have written to
+		key := st.List[1].String()
+		if rn.apiMsgs == nil {
+			rn.apiMsgs = map[string]*gmqtt.Message{}
+		}
+		m := rn.apiMsgs[key]
+		if m == nil {
+			m = msgOfSx(st.List[1])
+			rn.apiMsgs[key] = m
+		}
+		rn.srv.Publisher().Publish(m)
 	case "terminate":
 		rn.srv.ClientService().TerminateSession(rn.real(st.List[1].Str()))
 	case "advance":
